@@ -12,6 +12,11 @@ multi-step routines over all pairs; it is NOT decided.  Decided are structural n
               ymd / ymcw: the month before (y2, m2) is formed first (with the 1 -> 12 year wrap), its __get_mdays is added to the
               days, the month count drops by one -- per borrow; ywd: a week is 7 days, a year is __get_isowk weeks; yd: a year is
               365 (+ leap day) days; a borrow is taken only when the finer field is negative (below a week for ymcw)
+ RF2-diff     __yd_diff and __ymd_diff decoded over their whole domain (rules/diffdecode.py): representative years for every leap
+              configuration, every month and day (<= 28) of the earlier operand, the later operand's day symbolic over its range;
+              at each of the ~2 million integer points the result is the duration that leads from the earlier to the later date
+ RF1-yearcal  the calendar a difference counts its years in is the one dadd adds years in: the year/week/day difference counts ISO
+              week-years and is therefore confined to week dates (it is not: known finding, pinned by test ddiff.053)
  RF1-disp     dt_ddiff dispatches every duration type to the difference routine of its calendar, after converting both operands
               to that calendar
 """
@@ -233,9 +238,23 @@ def check_borrow(P, R, tu):
         adds = [x for x in fn.walk() if x.get("k") == "CompoundAssignOperator" and x.get("op") == "+=" and _isv(x["c"][0], C["tgtd"])
                 and _u(x["c"][1]) is not None and _u(x["c"][1]).get("k") == "CallExpr" and _u(x["c"][1]).get("callee") == "__get_mdays"]
         decs = [x for x in fn.walk() if x.get("k") == "UnaryOperator" and x.get("op") == "--" and _isv(x["c"][0], C["tgtm"])]
-        steps = [x for x in fn.walk() if x.get("k") == "IfStmt" and _u(x["c"][0]) is not None and _u(x["c"][0]).get("k") == "BinaryOperator"
-                 and _u(x["c"][0]).get("op") == "<" and _u(_u(x["c"][0])["c"][0]) is not None and _u(_u(x["c"][0])["c"][0]).get("k") == "UnaryOperator"
-                 and _u(_u(x["c"][0])["c"][0]).get("op") == "--" and const_of(_u(x["c"][0])["c"][1]) == 1]
+        def wraps_below_one(x):
+            """`if (<decrement of a month> compared with a constant)` that is true exactly when the stepped month is below 1:
+            --m < 1, --m <= 0, m-- < 2, m-- <= 1"""
+            if x.get("k") != "IfStmt":
+                return False
+            c = _u(x["c"][0])
+            if c is None or c.get("k") != "BinaryOperator" or c.get("op") not in ("<", "<="):
+                return False
+            u = _u(c["c"][0])
+            k = const_of(c["c"][1])
+            if u is None or u.get("k") != "UnaryOperator" or u.get("op") != "--" or k is None:
+                return False
+            bound = k if c["op"] == "<" else k + 1          # true iff compared value < bound
+            if u.get("postfix"):
+                bound -= 1                                  # the compared value is the month before the step: new value = it - 1
+            return bound == 1
+        steps = [x for x in fn.walk() if wraps_below_one(x)]
         ok = len(adds) == nborrow and len(decs) == nborrow and len(steps) == nborrow
         detail = "%d additions of a month length, %d decrements of the month count, %d steps to the month before" % (len(adds), len(decs), len(steps))
         if ok:
@@ -353,6 +372,19 @@ def check_dispatch(P, R, tu):
                             a = [_u(z) for z in call_args(y)]
                             if [src.get(z.get("d")) if z is not None else None for z in a] != [p1, p2]:
                                 hit = False
+        if hit and en == "DT_DURYWD":
+            # years of this duration type are ISO week-years (decoded: RF2-diff), dadd adds years in the calendar of its operand:
+            # the two agree only for week dates, so the case has to be confined to them
+            grp = [g for g in groups if any(l["en"] == en for l in g["labels"])][0]
+            typ_tests = [y for s_ in grp["stmts"] for y in walk(s_) if y.get("k") == "MemberExpr" and y.get("n") == "typ"]
+            if typ_tests:
+                R.ob("RF1-yearcal", "dt_ddiff %s looks at the calendar of its operands" % en, True)
+            else:
+                R.finding("RF1-yearcal", fn, "case %s: years counted in ISO week-years for operands of any calendar" % en,
+                          "a difference in years, weeks and days converts both operands to week dates and counts ISO week-years, whatever "
+                          "calendar they came in; dadd adds years in the calendar of the date it is given, so for ymd dates the printed "
+                          "duration does not lead back: `ddiff 2010-03-01 2012-03-01 -f '%Y %w %d'` = 2 0 3, `dadd 2010-03-01 +2y +0w +3d` = "
+                          "2012-03-04")
         if hit:
             R.ob(rule, "dt_ddiff %s: both operands through %s, then %s" % (en, conv, diff), True)
         else:
@@ -365,11 +397,14 @@ def check(P, R, tier):
     check_linear(P, R, tu)
     check_borrow(P, R, tu)
     check_dispatch(P, R, tu)
+    import diffdecode
+    n = diffdecode.check_yd(R, tu, "RF2-diff") + diffdecode.check_ymd(R, tu, "RF2-diff") + diffdecode.check_ywd(R, tu, "RF2-diff")
+    R.floor("RF2-diff", "decoded points of the year/day, year/month/day and year/week/day differences", n, 3000000)
 
 
-LEVEL = ("Decides structural necessary conditions of `difference inverts addition`: operands are ordered first and the sign is "
+LEVEL = ("Decides, for the year/day, year/month/day and year/week/day differences, the inverse law itself by decoding the routines over their whole domain (RF2-diff), and structural necessary conditions of `difference inverts addition`: operands are ordered first and the sign is "
          "recorded (antisymmetry by construction), the coarse difference is the linear form the adders invert, every borrow gives up "
-         "exactly one period and adds that period's length, and the dispatch pairs each duration type with its calendar.  That the "
-         "printed duration, added back largest unit first, lands exactly on the later value for all pairs is NOT decided.")
-RULE = "obligation = one ordering step, one linear form, one borrow pairing / condition, one dispatch case"
+         "exactly one period and adds that period's length, and the dispatch pairs each duration type with its calendar.  NOT "
+         "decided: __ymcw_diff, the time part of date-time differences, and the exactness of the adders themselves (C03 / C04).")
+RULE = "obligation = one ordering step, one linear form, one borrow pairing / condition, one dispatch case, one decoded routine (all its points)"
 ASSUME = ["period lengths (__get_mdays, __get_isowk, __leapp) are right (C01)", "the adders are as decided under C03 / C04"]
